@@ -12,8 +12,13 @@ CLAIM = ("(TABLE) the magic bytes written by Ontology::metadata_as_bytes equal t
          "Ontology::from_bytes (an OMIM/ORPHA swap is silent at run time because both share a layout); (COVER) for HpoTermInternal, Gene, OmimDisease, "
          "OrphaDisease and the release version every field the encoder reads is set by the decoder path; (GUARD) every narrowing integer cast is bounded by "
          "a `min(_, c)` with c <= the target maximum; (TAINT) a byte-count truncation of `str::as_bytes()` happens only at a count validated with "
-         "is_char_boundary on the same string (or obtained from char_indices / floor_char_boundary).")
-NOT_DECIDED = "observational equality after reload and byte-exact layout agreement beyond field coverage (offsets/widths are not compared by this revision)."
+         "is_char_boundary on the same string (or obtained from char_indices / floor_char_boundary); (LAYOUT) for the term, gene, OMIM/ORPHA disease and "
+         "term-parent records the byte layout of encoder and decoder agree as AFFINE expressions of the variable lengths: the encoder's declared record size "
+         "equals the bytes it emits, every declared length is followed by that many elements, every offset the decoder reads (outside element loops) starts and "
+         "ends on a field boundary of the encoder's layout, the element loop starts at the encoder's element block and advances by the element width, every "
+         "decoded field is filled from the bytes where the encoder stored THAT field, the decoder's length validations equal the encoder's total size (with "
+         "variable parts present or empty), and every optional store of a decoded field is guarded only by that field's own bytes.")
+NOT_DECIDED = "observational equality after reload (values of the decoded fields on every input); the section framing of Ontology::as_bytes beyond its order."
 
 REC = {
     "HpoTermInternal": {"owner": r"term::internal::HpoTermInternal$", "enc": ["term::internal::HpoTermInternal::as_bytes", "term::internal::HpoTermInternal::parents_as_byte"],
@@ -301,5 +306,9 @@ def run(ck, prog, ctx):
             continue
         k = layout.check_record_layout(ck, "LAYOUT", prog, wb, rb, own, lab)
         if k:
+            n_pairs += 1
+    wb, rb = prog.one(r"^term::internal::HpoTermInternal::parents_as_byte$"), prog.one(r"::add_parent_from_bytes$")
+    if wb is not None and rb is not None:
+        if layout.check_record_layout(ck, "LAYOUT", prog, wb, rb, "HpoTermInternal", "parents", reader_input=2, running_base=True, size_field=False):
             n_pairs += 1
     ck.floor("LAYOUT", "record codecs with an aligned writer/reader layout", n_pairs, 3)
